@@ -169,6 +169,8 @@ def judge(ctx, ast, sp, T, vi, v):
     from pane.errors import ConvertError
     pane = ctx.pane
     res = ctx.res
+    if 'dc_setpost' in e1.leaves_of(ast):
+        return       # (the fixture's hook refuses an explicit 'b', and the class always writes 'b': it cannot read its own output by design)
     if 'dc_baddef' in e1.leaves_of(ast):
         return       # (the fixture's own default, None for an int field, is not a value of the field's type: what absent data yields is not a typed value)
     if 'ndarray' in e1.leaves_of(ast):
